@@ -18,6 +18,7 @@ pub static SCENARIO: Scenario = Scenario {
     gen,
     judge: |run, obs| oracle::judge("C04", run, obs),
     assumptions: &["'other key' means different verifier-side key bytes (symmetric key / public key) as resolved by the harness"],
+    exhaustive: &[],
 };
 
 fn gen(ctx: &GenCtx, i: u64) -> Option<Run> {
